@@ -11,7 +11,8 @@ use std::collections::{BTreeMap, BTreeSet, HashSet};
 
 use crate::{
     ClientFieldVariant, CompilationProfile, FlattenedDataModelEntity, IsographDatabase,
-    entity_not_defined_diagnostic, flattened_entity_named, reader_selection_set_map,
+    MergedServerSelection, NetworkProtocol, entity_not_defined_diagnostic, flattened_entity_named,
+    reader_selection_set_map, refetch_strategy_for_client_scalar_selectable_named,
     selectable_is_wrong_type_diagnostic, selectable_named,
 };
 
@@ -265,7 +266,39 @@ fn validate_selection_set<TCompilationProfile: CompilationProfile>(
                             ScalarSelectionDirectiveSet::Loadable(_) => {
                                 let client_scalar_selectable = client_scalar_selectable.lookup(db);
                                 match client_scalar_selectable.variant.reference() {
-                                    ClientFieldVariant::UserWritten(_) => {}
+                                    ClientFieldVariant::UserWritten(_) => {
+                                        // A loadable field is fetched by refetching the object it
+                                        // is selected on.
+                                        let location =
+                                            scalar_selection.name.location.to::<Location>();
+                                        if !matches!(
+                                            refetch_strategy_for_client_scalar_selectable_named(
+                                                db,
+                                                client_scalar_selectable.parent_entity_name,
+                                                client_scalar_selectable.name,
+                                            ),
+                                            Ok(Some(_))
+                                        ) {
+                                            errors.push(Diagnostic::new(
+                                                format!(
+                                                    "`{}.{}` cannot be selected @loadable, because \
+                                                    `{}` cannot be refetched (it has no id field).",
+                                                    parent_entity.name,
+                                                    scalar_selection.name.item,
+                                                    parent_entity.name,
+                                                ),
+                                                location.wrap_some(),
+                                            ));
+                                        } else if let Some(error) =
+                                            entity_is_not_refetchable_diagnostic(
+                                                db,
+                                                client_scalar_selectable.parent_entity_name,
+                                                location,
+                                            )
+                                        {
+                                            errors.push(error);
+                                        }
+                                    }
                                     ClientFieldVariant::ImperativelyLoadedField(_) => {
                                         errors.push(Diagnostic::new(
                                             format!(
@@ -303,7 +336,20 @@ fn validate_selection_set<TCompilationProfile: CompilationProfile>(
                                     scalar_selection.name.location.to::<Location>().wrap_some(),
                                 ));
                             }
-                            ScalarSelectionDirectiveSet::None(_) => {}
+                            ScalarSelectionDirectiveSet::None(_) => {
+                                // e.g. __refetch: the query that loads the field is rooted at
+                                // an entity that must be fetchable.
+                                if let ClientFieldVariant::ImperativelyLoadedField(variant) =
+                                    client_scalar_selectable.lookup(db).variant.reference()
+                                    && let Some(error) = entity_is_not_refetchable_diagnostic(
+                                        db,
+                                        variant.root_object_entity_name,
+                                        scalar_selection.name.location.to::<Location>(),
+                                    )
+                                {
+                                    errors.push(error);
+                                }
+                            }
                         }
                     }
                 }
@@ -431,7 +477,16 @@ fn validate_selection_set<TCompilationProfile: CompilationProfile>(
                             ObjectSelectionDirectiveSet::None(_) => {}
                         }
 
-                        c.lookup(db).target_entity.inner()
+                        // What a client pointer points to is fetched by refetching it
+                        let target_entity_name = c.lookup(db).target_entity.inner();
+                        if let Some(error) = entity_is_not_refetchable_diagnostic(
+                            db,
+                            target_entity_name.0,
+                            object_selection.name.location.to::<Location>(),
+                        ) {
+                            errors.push(error);
+                        }
+                        target_entity_name
                     }
                 }
                 .0;
@@ -460,6 +515,41 @@ fn validate_selection_set<TCompilationProfile: CompilationProfile>(
             }
         }
     }
+}
+
+/// An entity can be refetched if the network protocol knows how to fetch it (e.g. through
+/// node(id: $id)) and every field that this goes through exists on the type it starts from.
+fn entity_is_not_refetchable_diagnostic<TCompilationProfile: CompilationProfile>(
+    db: &IsographDatabase<TCompilationProfile>,
+    entity_name: EntityName,
+    location: Location,
+) -> Option<Diagnostic> {
+    let wrapped = match TCompilationProfile::NetworkProtocol::wrap_merged_selection_map(
+        db,
+        entity_name,
+        BTreeMap::new(),
+    ) {
+        Ok(wrapped) => wrapped,
+        Err(e) => return Diagnostic::new(e.0.message, location.wrap_some()).wrap_some(),
+    };
+    for selection in wrapped.merged_selection_map.inner().values() {
+        if let MergedServerSelection::LinkedField(linked_field) = selection
+            && !matches!(
+                selectable_named(db, wrapped.root_entity, linked_field.name),
+                Ok(Some(_))
+            )
+        {
+            return Diagnostic::new(
+                format!(
+                    "`{entity_name}` cannot be refetched, because `{}.{}` does not exist.",
+                    wrapped.root_entity, linked_field.name
+                ),
+                location.wrap_some(),
+            )
+            .wrap_some();
+        }
+    }
+    None
 }
 
 fn selection_wrong_selection_type_diagnostic(
